@@ -22,8 +22,12 @@ import (
 // prefixes of the plugins the scenarios use, longest first (as sortPlugins orders them).
 var prefixes = []string{"deriveCompare", "deriveEqual", "deriveHash"}
 
+// scanPrefixes: what counts as a derive call when user files are scanned (the hand-written scenarios also
+// use plugins the effects model is not told about)
+var scanPrefixes = append(append([]string{}, prefixes...), "deriveSort", "deriveKeys", "deriveUnique")
+
 func hasPluginPrefix(name string) bool {
-	for _, p := range prefixes {
+	for _, p := range scanPrefixes {
 		if strings.HasPrefix(name, p) {
 			return true
 		}
